@@ -106,6 +106,8 @@ MInit ==
       pdr |-> <<>>,        \* pending despawn reactions: [s, e, h]
       elocal |-> <<>>,     \* e -> local value of the entity world reactor (0 = none)
       drvlast |-> 0,
+      sig |-> <<>>,        \* payload -> plain entity whose auto-despawn signal travels in it
+      doomedE |-> {},      \* plain entities whose signal has been released: the next GC must despawn them
       taint |-> {},        \* commands whose start overlapped another pending delivery to the same system (finding F1)
       viol |-> {} ]
 
@@ -232,6 +234,7 @@ OnIssue(m, o) ==
     IN CASE n = "bc"    -> [m0 EXCEPT !.pay = Put(@, op[3], newpay(op[3]))]
          [] n = "eev"   -> [m0 EXCEPT !.pay = Put(@, op[4], newpay(op[4]))]
          [] n = "sysev" -> [m0 EXCEPT !.pay = Put(@, op[3], newpay(op[3]))]
+         [] n = "sysevsig" -> [m0 EXCEPT !.pay = Put(@, op[3], newpay(op[3])), !.sig = Put(@, op[3], op[4])]
          [] n = "reg"   -> IF op[5] > 0 THEN [m0 EXCEPT !.tok = Put(@, op[5], [s |-> op[3], b |-> op[4]])] ELSE m0
          [] n = "once"  -> [m0 EXCEPT !.tok = Put(@, op[4], [s |-> op[2], b |-> op[3]]),
                                       !.oncetok = Put(@, op[2], op[3])]
@@ -414,8 +417,8 @@ OnCmd(m, o) ==
         LET n == IF inop THEN OpName(t.op) ELSE ""
             okrun == inop /\ ((o.kind = "run" /\ n = "run" /\ t.op[2] = o.sys)
                            \/ (o.kind = "run" /\ n = "wrun" /\ WSys(m, t.op[2]) = o.sys)
-                           \/ (o.kind = "sysev" /\ n = "sysev" /\ t.op[2] = o.sys))
-            p == IF inop /\ n = "sysev" THEN t.op[3] ELSE 0
+                           \/ (o.kind = "sysev" /\ n \in {"sysev", "sysevsig"} /\ t.op[2] = o.sys))
+            p == IF inop /\ n \in {"sysev", "sysevsig"} THEN t.op[3] ELSE 0
             m1 == Chk(m, okrun, "C09", "system command applied outside the op that queued it")
             m2 == IF p # 0 THEN [m1 EXCEPT !.pay = Put(@, p, [PayRec(m1, p) EXCEPT !.out = 1])] ELSE m1
         IN [m2 EXCEPT !.last = [base EXCEPT !.p = p]]
@@ -573,14 +576,21 @@ OnExit(m, o) ==
     IN Pop(m2)
 
 OnGc(m, o) ==
-    LET d == Elems(o.d)
+    LET all == Elems(o.d)
+        d == { x \in all : x < 100 }                        \* systems
+        dE == { x - 100 : x \in { y \in all : y > 100 } }    \* plain entities (auto-despawn signal released with a payload)
         exp == m.doomed \cap m.alive
+        expE == m.doomedE \cap m.aliveE
         m1a == Chk(m, d \subseteq exp, "C07", "garbage collection despawned a reactor that still has a trigger (or is persistent)")
         m1 == IF \E s \in (d \ exp) : s \in m.once /\ s \notin m.onceRan
               THEN V(m1a, "C15", "a one-off reactor was despawned before any of its triggers fired") ELSE m1a
         m2 == Chk(m1, exp \subseteq d, "C07", "garbage collection missed a reactor whose last trigger is gone")
         m3 == Chk(m2, o.closed = 1, "C18", "garbage collection did not complete")
-    IN [m3 EXCEPT !.alive = @ \ d, !.doomed = {}]
+        m4 == Chk(m3, dE \subseteq expE, "C08", "garbage collection despawned an entity whose signal is still held")
+        m5 == Chk(m4, expE \subseteq dE, "C08", "garbage collection missed an entity whose last signal was released")
+        \* despawning a plain entity: its components are removed, its registrations die, its despawn reactors are owed
+        m7 == FoldSeq(LAMBDA acc, x : IF (x - 100) \in acc.aliveE THEN KillEntity(acc, x - 100) ELSE acc, m5, SelectSeq(o.d, LAMBDA x : x > 100))
+    IN [m7 EXCEPT !.alive = @ \ d, !.doomed = {}, !.doomedE = {}]
 
 OnPoll(m, o) ==
     Push([m EXCEPT !.pendRem = [ i \in DOMAIN @ |-> [@[i] EXCEPT !.seen = TRUE] ],
@@ -618,7 +628,8 @@ OnDrop(m, o) ==
         pr == PayRec(mS, o.p)
         m1 == Chk(mS, ~pr.dropped, "C05", "payload dropped twice")
         m2 == Chk(m1, pr.out = 0 \/ pr.taken, "C05", "payload dropped while a scheduled reader has yet to run")
-    IN [m2 EXCEPT !.pay = Put(@, o.p, [pr EXCEPT !.dropped = TRUE])]
+    IN [m2 EXCEPT !.pay = Put(@, o.p, [pr EXCEPT !.dropped = TRUE]),
+                  !.doomedE = IF o.p \in DOMAIN m.sig THEN @ \cup {m.sig[o.p]} ELSE @]
 
 OnTaken(m, o) ==
     LET pr == PayRec(m, o.p)
